@@ -54,16 +54,19 @@ def _error_cell(f):
     return None
 
 
-def _is_raise(f, x, errcell):
+def _is_raise(f, x, errcell, ptr=False):
     if x.op == "store" and errcell is not None and x["ptr"].get("k") == "inst" and x["ptr"]["id"] == errcell:
         v = rules.const_of(f, x["val"])
+        if ptr:
+            # pointer result: anything but the literal NULL
+            return x["val"].get("k") != "null" and v != 0
         return v is not None and bool(v & 1)
     if x.op == "ret" and "val" in x.d:
         return bool((rules.const_of(f, x["val"]) or 0) & 1)
     return False
 
 
-def _raises_direct(f, cmp_inst, match_truth, errcell):
+def _raises_direct(f, cmp_inst, match_truth, errcell, ptr=False):
     """every path from the match edge of a branch on the comparison passes 'error = true' / `return true`
     (covers `if (a == b || !strcmp(..)) { error = true; }`, where the raising block has two predecessors)"""
     for b in f.blocks:
@@ -74,7 +77,7 @@ def _raises_direct(f, cmp_inst, match_truth, errcell):
             if _same_test(f, t["cond"], cmp_inst, truth, match_truth):
                 succ = t["t"] if truth else t["f"]
                 start = f.bmap[succ].insts[0]
-                if rules.exists_path(f, start, "exit", lambda x: _is_raise(f, x, errcell), include_start=True) is None:
+                if rules.exists_path(f, start, "exit", lambda x: _is_raise(f, x, errcell, ptr), include_start=True) is None:
                     return True
     return False
 
@@ -362,21 +365,50 @@ def run(chk, w):
                 else:
                     ok = _raises(f, i, ops[2], errcell)
                 found.setdefault(key, []).append((i, ok))
-            # an equality helper `equal(&new, &existing)`: its comparisons of the two parameters' keys count when a match makes it return
-            # true and a true result raises the error in the caller
+            # a comparison helper: `equal(&new, &existing)` or `find_by_key(list, new.key)` / `find_conflict(list, &new)`.  Its comparisons of
+            # the new record's key (reached through the parameter) with the same key of another record count when a match makes the helper
+            # return true / a non-null pointer and such a result raises the error in the caller
             for t in f.calls():
                 g = P.functions.get(t.callee or "")
-                if g is None or not g.blocks or g.ret != "i1" or len(t.args) != 2:
+                if g is None or not g.blocks or not (g.ret == "i1" or g.ret.endswith("*")):
                     continue
-                bases = []
-                for a in t.args:
-                    x = f.resolve(rules.strip_casts(f, a)) if a.get("k") == "inst" else None
+                kinds = {}
+                for j, a in enumerate(t.args):
+                    if a.get("k") != "inst":
+                        continue
+                    x = f.resolve(rules.strip_casts(f, a))
                     while x is not None and x.op in ("bitcast", "getelementptr"):
                         x = f.resolve(x["a"] if x.op == "bitcast" else x["base"])
-                    bases.append(x.id if x is not None and x.op == "alloca" else None)
-                if rec.id not in bases or None in bases or bases[0] == bases[1]:
+                    if x is not None and x.op == "alloca" and x.id == rec.id:
+                        kinds[j] = "rec"
+                        continue
+                    fv = _field_of_value(P, f, a)
+                    if fv and fv[0] == ("a", rec.id) and fv[1] and fv[1][0].split(".")[0] == tname:
+                        kinds[j] = _key_name(fv[1])
+                if not kinds:
                     continue
                 caller_ok = _raises(f, t, True, errcell)
+                gcell = _error_cell(g)
+
+                def side(o):
+                    """(param index or None, key name or None, record struct or None)"""
+                    o = rules.strip_casts(g, o)
+                    r_ = rules.resolve_local(g, o)
+                    if r_.get("k") == "arg":
+                        return r_["i"], None, None          # the scalar parameter itself
+                    if o.get("k") != "inst":
+                        return None
+                    fv = _field_of_value(P, g, o)
+                    if not fv:
+                        return None
+                    if fv[0][0] == "a":
+                        slot = fv[0][1]
+                    elif fv[0][0] == "p" and fv[0][1] and fv[0][1][0] == "alloca":
+                        slot = fv[0][1][1]
+                    else:
+                        return None
+                    pj = g.param_index_of_alloca(g.insts[slot])
+                    return pj, (_key_name(fv[1]) if fv[1] else None), (fv[1][0].split(".")[0] if fv[1] else None)
                 for i in g.all_insts():
                     ops = None
                     if i.op == "icmp" and i["pred"] in ("eq", "ne"):
@@ -385,13 +417,19 @@ def run(chk, w):
                         ops = (i.args[0], i.args[1], False)
                     if ops is None:
                         continue
-                    a = _field_of_value(P, g, ops[0]) if ops[0].get("k") == "inst" else None
-                    b = _field_of_value(P, g, ops[1]) if ops[1].get("k") == "inst" else None
-                    if not a or not b or not a[1] or not b[1] or a[0] == b[0] or _key_name(a[1]) != _key_name(b[1]):
+                    sa, sb = side(ops[0]), side(ops[1])
+                    if sa is None or sb is None:
                         continue
-                    if a[1][0].split(".")[0] != tname:
-                        continue
-                    found.setdefault(_key_name(a[1]), []).append((i, caller_ok and _raises_direct(g, i, ops[2], _error_cell(g))))
+                    for new_, old_ in ((sa, sb), (sb, sa)):
+                        if new_[0] not in kinds or old_[1] is None or old_[2] != tname:
+                            continue
+                        if old_[0] is not None and kinds.get(old_[0]) is not None:
+                            continue        # both sides are the new record
+                        key = new_[1] if kinds[new_[0]] == "rec" else (kinds[new_[0]] if new_[1] is None else None)
+                        if key is None or key != old_[1]:
+                            continue
+                        found.setdefault(key, []).append((i, caller_ok and _raises_direct(g, i, ops[2], gcell, ptr=g.ret.endswith("*"))))
+                        break
             for key in LOCAL_KEYS[tname]:
                 cmps = found.get(key, [])
                 if not cmps:
